@@ -162,6 +162,9 @@ class C01(Prop):
             except Exception as e:
                 impl = {"raises": exc_kind(e)}
             res.append(("scan_" + style, {"op": "scan_doc", "style": style, "text": t}, impl))
+            if self.detect_style(t) == style:
+                for e2 in (True, False):
+                    res.append(("parse_" + style, {"op": "parse_doc", "style": style, "text": t, "emit": e2}, self.py_parse(t, e2)))
         pe = self.py_emit(ir, "rest", c["emit_dd"])
         res.append(("emit_rest", {"op": "emit_rest", "ir": c["ir"], "emit": c["emit_dd"]}, pe))
         if "ok" in pe:
@@ -174,7 +177,7 @@ class C01(Prop):
         return res
 
     def canon_model(self, layer, op, ans):
-        if layer == "parse_rest" and "ok" in ans:
+        if layer in ("parse_rest", "parse_numpydoc", "parse_google") and "ok" in ans:
             return {"ok": canon_ir(ans["ok"])}
         return ans
 
